@@ -120,7 +120,7 @@ def ensure_facts(profiles=("dev",), repo=None):
             wall = _run_profile(repo, profile, outdir)
             with open(done, "w") as f:
                 json.dump({"wall_s": wall, "src_hash": h, "repo": repo}, f)
-        # prune old fact directories (keep the 12 most recent, and anything used in the last ten minutes)
+        # prune old fact directories (keep the 12 most recent, and anything used in the last thirty minutes)
         root = os.path.join(CACHE, "facts")
         ds = sorted(
             (d for d in os.listdir(root) if os.path.isdir(os.path.join(root, d))),
@@ -128,7 +128,7 @@ def ensure_facts(profiles=("dev",), repo=None):
         )
         now = time.time()
         for d in ds[:-12]:
-            if d != h and now - os.path.getmtime(os.path.join(root, d)) > 600:
+            if d != h and now - os.path.getmtime(os.path.join(root, d)) > 1800:
                 shutil.rmtree(os.path.join(root, d), ignore_errors=True)
         os.utime(outdir, None)
         return outdir, h
